@@ -4,6 +4,7 @@ import (
 	"errors"
 
 	"github.com/buildbuildio/pebbles/common"
+	"github.com/samber/lo"
 )
 
 // ExecutionResult contains result of DepthExecutor executing single ExecutionRequest
@@ -19,10 +20,18 @@ type DepthExecutorResponse struct {
 }
 
 func (de *DepthExecutor) parseRespones(queryerResponses []*queryerResponse) (*DepthExecutorResponse, error) {
-	res, err := common.AsyncMapReduce(
-		queryerResponses,
-		new(DepthExecutorResponse),
-		func(field *queryerResponse) (*DepthExecutorResponse, error) {
+	// every response is parsed at its own position and the outcomes are put together in the order
+	// of the requests: results which touch the same object are merged in a fixed order
+	type indexedResponse struct {
+		index int
+		resp  *DepthExecutorResponse
+	}
+
+	parsed, err := common.AsyncMapReduce(
+		lo.Range(len(queryerResponses)),
+		make([]*DepthExecutorResponse, len(queryerResponses)),
+		func(index int) (*indexedResponse, error) {
+			field := queryerResponses[index]
 			queryResult := field.Response
 			req := field.ExecutionRequest
 			step := req.QueryPlanStep
@@ -59,23 +68,28 @@ func (de *DepthExecutor) parseRespones(queryerResponses []*queryerResponse) (*De
 				return nil, req.ToGqlError(err)
 			}
 
-			return &DepthExecutorResponse{
+			return &indexedResponse{index: index, resp: &DepthExecutorResponse{
 				NextExecutionRequests: nextExecutionRequests,
 				ExecutionResults: []*ExecutionResult{{
 					InsertionPoint: req.InsertionPoint,
 					Result:         queryResult,
 				}},
-			}, nil
+			}}, nil
 		},
-		func(acc *DepthExecutorResponse, value *DepthExecutorResponse) *DepthExecutorResponse {
-			acc.ExecutionResults = append(acc.ExecutionResults, value.ExecutionResults...)
-			acc.NextExecutionRequests = append(acc.NextExecutionRequests, value.NextExecutionRequests...)
+		func(acc []*DepthExecutorResponse, value *indexedResponse) []*DepthExecutorResponse {
+			acc[value.index] = value.resp
 			return acc
 		},
 	)
 
 	if err != nil {
 		return nil, err
+	}
+
+	res := new(DepthExecutorResponse)
+	for _, p := range parsed {
+		res.ExecutionResults = append(res.ExecutionResults, p.ExecutionResults...)
+		res.NextExecutionRequests = append(res.NextExecutionRequests, p.NextExecutionRequests...)
 	}
 
 	return res, nil
